@@ -41,6 +41,9 @@ Verdicts(r) ==
         \cup (IF r.res.t # "panic" /\ r.res.t # "capped" /\ res # r.res
               THEN {<<"C10", IF res.t = "missing" THEN "execution path diverges from the specification (oracle fact never requested)"
                              ELSE "result differs from the specification">>} ELSE {})
+        \* spec -> impl replay: the result TLC printed when it generated the program
+        \cup (IF "expect" \in DOMAIN r /\ r.res.t # "panic" /\ r.expect # r.res
+              THEN {<<"C10", "result differs from the one the specification printed for this generated program">>} ELSE {})
         \cup (IF r.pub.t # "panic" /\ r.res.t # "capped" /\ r.res.t # "panic" /\ r.pub # r.res
               THEN {<<"C10", "public execute and single-stepping disagree (non-deterministic)">>} ELSE {})
         \cup (IF r.res.t \notin {"panic", "capped"} /\ res = r.res /\ (out.steps # r.steps \/ out.pcsum # r.pcsum \/ out.maxdepth # r.maxdepth)
